@@ -93,8 +93,8 @@ impl<'a> Run<'a> {
         }
         let f = if rr.name != want.name { "name" }
             else if rr.alg != want.alg { "alg" }
-            else if rr.time != want.time { "time" }
-            else if rr.fudge != want.fudge { "fudge" }
+            else if want.time != u64::MAX && rr.time != want.time { "time" }
+            else if want.time != u64::MAX && rr.fudge != want.fudge { "fudge" }
             else if rr.oid != want.oid { "oid" }
             else if rr.err != want.err { "err" }
             else if rr.other != want.other { "other" }
@@ -246,7 +246,8 @@ impl<'a> Run<'a> {
                              oid: rid, err: 18, other: u48(self.s_now).to_vec() }
                 } else {
                     let code = match self.s_res.as_str() { "BADSIG" => 16, "BADKEY" => 17, "BADTRUNC" => 22, _ => 1 };
-                    TsigRr { name: rq.name.clone(), alg: rq.alg.clone(), time: rq.time, fudge: rq.fudge, mac: vec![],
+                    // RFC 8945 5.3.2 does not say which times an unsigned error carries: not compared
+                    TsigRr { name: rq.name.clone(), alg: rq.alg.clone(), time: u64::MAX, fudge: 0, mac: vec![],
                              oid: rid, err: code, other: vec![] }
                 };
                 let obs = self.signed_obs(op, &pre, &wire, &want);
